@@ -21,7 +21,7 @@ package redact
 //     of at most 2 (quick) / 3 (thorough, reduced alphabet) operations over an alphabet of SafeString / SafeInt /
 //     SafeRune / ... / UnsafeString / UnsafeRune / ... / Write / Fprintf / Print(args) / Printf(format, args) /
 //     panic, with arguments that are again leaves, wrappers and (nesting depth <= 3) other programs.
-// Every value x is rendered as Unsafe(x) and as Safe(x) through every context of c06Contexts (Sprint, Sprintln,
+// Every value x is rendered as Unsafe(x) and as Safe(x) through every context of c06Contexts (Sprint, Fprint, Fprintf,
 // Sprintf with ~40 directives between safe sentinels, Sprintfn + nested Print/Printf, StringBuilder.Print/Printf,
 // nested printers two levels deep, and as an element of an unwrapped slice/struct/map).
 //
@@ -231,17 +231,23 @@ func c06OnlyLF(rendering string) (string, bool) {
 
 // c06Val is one member of the value universe with the facts the oracle needs about it.
 type c06Val struct {
-	name string      // Go-like text
-	v    interface{} // the value
-	red  bool        // contains pre-redactable text (RedactableString/Bytes, StringBuilder) not under an Unsafe(): no Safe() claim
-	expl bool        // a user method calls the explicit Unsafe* writers: no "Safe(x) has no envelope" claim
-	meth bool        // classification through a method (SafeFormatter, SafeMessager, hooked error): under Safe() the method, not fmt, decides how verbs other than plain %v are rendered
-	hasS bool        // contains a Safe() wrapper
-	hasU bool        // contains an Unsafe() wrapper
-	prog bool        // contains a method that calls back into the printer
-	err  bool        // contains an error value (rendered by the hook when one is registered)
-	pan  bool        // a method panics (the method name in the panic report differs between SafeFormat and Format/String)
-	div  string      // known divergence from fmt's characters (reported, equality skipped)
+	name   string      // Go-like text
+	v      interface{} // the value
+	red    bool        // contains pre-redactable text (RedactableString/Bytes, StringBuilder) keeps its own envelopes under Safe(): no Safe() claim
+	expl   bool        // a user method calls the explicit Unsafe* writers: no "Safe(x) has no envelope" claim
+	meth   bool        // classification through a method (SafeFormatter, SafeMessager, hooked error): under Safe() the method, not fmt, decides how verbs other than plain %v are rendered
+	hasS   bool        // contains a Safe() wrapper
+	hasU   bool        // contains an Unsafe() wrapper
+	prog   bool        // contains a method that calls back into the printer
+	err    bool        // contains an error value (rendered by the hook when one is registered)
+	pan    bool        // a SafeFormatter / hooked error panics: the method named in the panic report (SafeFormat) differs from the one fmt names (Format, String, Error)
+	anypan bool        // some method panics (the fork of fmt keeps the width after a recovered panic, go1.23's fmt resets it)
+	nofmt  bool        // a SafeFormatter with no method that fmt knows: under Safe() its SafeFormat decides the characters, fmt prints the struct
+	mf     bool        // a method applies a directive other than plain %v to a part that is classified through a method (under Safe() that part's own method decides the characters)
+	sf     bool        // a method applies a directive other than plain %v to a part that contains a Safe() wrapper
+	rsf    bool        // a method applies a directive other than plain %v to a RedactableString
+	rs     bool        // contains a RedactableString (documented as "not further formattable": it ignores the directive)
+	div    string      // known divergence from fmt's characters (reported, equality skipped)
 }
 
 func c06Join(vs []c06Val) (names string, args []interface{}, fl c06Val) {
@@ -257,6 +263,12 @@ func c06Join(vs []c06Val) (names string, args []interface{}, fl c06Val) {
 		fl.prog = fl.prog || a.prog
 		fl.err = fl.err || a.err
 		fl.pan = fl.pan || a.pan
+		fl.rs = fl.rs || a.rs
+		fl.anypan = fl.anypan || a.anypan
+		fl.nofmt = fl.nofmt || a.nofmt
+		fl.mf = fl.mf || a.mf
+		fl.rsf = fl.rsf || a.rsf
+		fl.sf = fl.sf || a.sf
 		if fl.div == "" {
 			fl.div = a.div
 		}
@@ -282,7 +294,6 @@ func c06Safe(x c06Val) c06Val {
 func c06Unsafe(x c06Val) c06Val {
 	r := c06With("Unsafe("+x.name+")", Unsafe(x.v), x)
 	r.hasU = true
-	r.red = false // under Unsafe() pre-redactable text is plain data
 	return r
 }
 
@@ -354,6 +365,11 @@ type c06Box struct {
 type c06Hid struct {
 	a interface{}
 	B int
+}
+type c06Field struct {
+	S SafeString
+	I interface{}
+	N SafeInt
 }
 type c06Typed struct {
 	S SafeString
@@ -509,8 +525,23 @@ func (p *c06Prog) ref() string {
 	return b.String()
 }
 
+// The carriers hold their program by number, so that printing a carrier by reflection (bad verbs, Unsafe() around
+// a pure SafeFormatter) shows one integer and not the operation list.
+var c06ProgTab []*c06Prog
+
+type c06ProgID int
+
+func (n c06ProgID) runPrinter(sp SafePrinter) { c06ProgTab[n].runPrinter(sp) }
+func (n c06ProgID) runWriter(w io.Writer)     { c06ProgTab[n].runWriter(w) }
+func (n c06ProgID) ref() string               { return c06ProgTab[n].ref() }
+
+func c06NewProg(ops ...c06Op) c06ProgID {
+	c06ProgTab = append(c06ProgTab, &c06Prog{ops: ops})
+	return c06ProgID(len(c06ProgTab) - 1)
+}
+
 // c06Fm: fmt.Formatter that discovers the SafePrinter behind its fmt.State.
-type c06Fm struct{ p *c06Prog }
+type c06Fm struct{ p c06ProgID }
 
 func (c c06Fm) Format(s fmt.State, _ rune) {
 	if sp, ok := s.(SafePrinter); ok {
@@ -521,19 +552,19 @@ func (c c06Fm) Format(s fmt.State, _ rune) {
 }
 
 // c06SfF: SafeFormatter, and for fmt a Formatter.
-type c06SfF struct{ p *c06Prog }
+type c06SfF struct{ p c06ProgID }
 
 func (c c06SfF) SafeFormat(sp SafePrinter, _ rune) { c.p.runPrinter(sp) }
 func (c c06SfF) Format(s fmt.State, verb rune)     { c06Fm{c.p}.Format(s, verb) }
 
 // c06SfS: SafeFormatter, and for fmt a Stringer.
-type c06SfS struct{ p *c06Prog }
+type c06SfS struct{ p c06ProgID }
 
 func (c c06SfS) SafeFormat(sp SafePrinter, _ rune) { c.p.runPrinter(sp) }
 func (c c06SfS) String() string                    { return c.p.ref() }
 
 // c06Er: error; with the hook registered the hook runs the program on the printer.
-type c06Er struct{ p *c06Prog }
+type c06Er struct{ p c06ProgID }
 
 func (c c06Er) Error() string { return c.p.ref() }
 
@@ -548,23 +579,34 @@ func c06Hook(err error, p i.SafePrinter, _ rune) {
 var c06Carriers = []string{"c06Fm", "c06SfF", "c06SfS", "c06Er"}
 
 func c06Carrier(kind string, ops ...c06Op) c06Val {
-	p := &c06Prog{ops: ops}
+	p := c06NewProg(ops...)
 	var parts []c06Val
-	r := c06Val{}
+	expl, pan, anypan, mf, rsf, sf := false, false, false, false, false, false
 	for _, o := range ops {
 		parts = append(parts, o.args...)
 		switch o.k {
+		case "Printf", "Fprintf":
+			if _, _, a := c06Join(o.args); !c06PlainFormat(o.s) {
+				mf = mf || a.meth || a.err
+				rsf = rsf || a.rs
+				sf = sf || a.hasS
+			}
 		case "UnsafeString", "UnsafeRune", "UnsafeByte", "UnsafeBytes":
-			r.expl = true
+			expl = true
 		case "Panic":
-			r.pan = true
+			pan = kind != "c06Fm"
+			anypan = true
 		}
 	}
 	_, _, fl := c06Join(parts)
-	fl.expl = fl.expl || r.expl
-	fl.pan = fl.pan || r.pan
+	fl.expl = fl.expl || expl
+	fl.pan = fl.pan || pan
+	fl.anypan = fl.anypan || anypan
+	fl.mf = fl.mf || mf
+	fl.rsf = fl.rsf || rsf
+	fl.sf = fl.sf || sf
 	fl.prog = true
-	fl.name = kind + "{" + p.text() + "}"
+	fl.name = kind + "{" + c06ProgTab[p].text() + "}"
 	switch kind {
 	case "c06Fm":
 		fl.v = c06Fm{p}
@@ -625,7 +667,7 @@ func c06Passive() []c06Val {
 		c06P(`(*c06PtrStr)(nil)`, (*c06PtrStr)(nil)),
 		c06P(`c06GoStr{"g"}`, c06GoStr{"g"}),
 		c06P(`c06PassFm{"f‹"}`, c06PassFm{"f" + vS}),
-		c06With(`c06PanicStr{}`, c06PanicStr{}, c06Val{pan: true}),
+		c06With(`c06PanicStr{}`, c06PanicStr{}, c06Val{anypan: true}),
 		c06P(`reflect.ValueOf(7)`, reflect.ValueOf(7)),
 		c06P(`reflect.ValueOf("r‹")`, reflect.ValueOf("r"+vS)),
 		c06P(`reflect.ValueOf(c06Stringer{"rs"})`, reflect.ValueOf(c06Stringer{"rs"})),
@@ -648,11 +690,12 @@ func c06Classified() []c06Val {
 		c06P(`c06SVStruct{"svs", 2}`, c06SVStruct{"svs", 2}),
 		c06P(`c06RegS{"rs‹", 3} /* RegisterSafeType */`, c06RegS{"rs" + vS, 3}),
 		c06P(`c06RegI(9) /* RegisterSafeType */`, c06RegI(9)),
-		c06With(`RedactableString("r‹s›t")`, RedactableString("r"+vS+"s"+vE+"t"), c06Val{red: true}),
-		c06With(`RedactableBytes("q‹b›")`, RedactableBytes("q"+vS+"b"+vE), c06Val{red: true}),
-		c06With(`RedactableString("‹›‹\n›")`, RedactableString(vS+vE+vS+"\n"+vE), c06Val{red: true}),
+		c06With(`RedactableString("r‹s›t")`, RedactableString("r"+vS+"s"+vE+"t"), c06Val{red: true, rs: true}),
+		// by design RedactableBytes renders as its text under every directive, where fmt prints a byte slice
+		c06With(`RedactableBytes("q‹b›")`, RedactableBytes("q"+vS+"b"+vE), c06Val{red: true, rs: true, div: "RedactableBytes renders as its text under every directive; fmt prints a []byte (\"[113 226 ...]\")"}),
+		c06With(`RedactableString("‹›‹\n›")`, RedactableString(vS+vE+vS+"\n"+vE), c06Val{red: true, rs: true}),
 		c06With(`c06Sm{"m‹"}`, c06Sm{"m" + vS}, c06Val{meth: true}),
-		c06With(`c06SfOnly{"o›", 4}`, c06SfOnly{"o" + vE, 4}, c06Val{meth: true, prog: true}),
+		c06With(`c06SfOnly{"o›", 4}`, c06SfOnly{"o" + vE, 4}, c06Val{meth: true, prog: true, nofmt: true}),
 		c06With(`StringBuilder{SafeString("bs"); UnsafeString("bu‹")}`, sb, c06Val{red: true, meth: true, prog: true}),
 		c06With(`&StringBuilder{SafeString("bs"); UnsafeString("bu‹")}`, &sb, c06Val{red: true, meth: true, prog: true}),
 	}
@@ -660,7 +703,7 @@ func c06Classified() []c06Val {
 
 // c06ProgArgs: operands that programs hand to Print/Printf.
 func c06ProgArgs(quick bool) []c06Val {
-	rs := c06With(`RedactableString("r‹s›t")`, RedactableString("r"+vS+"s"+vE+"t"), c06Val{red: true})
+	rs := c06With(`RedactableString("r‹s›t")`, RedactableString("r"+vS+"s"+vE+"t"), c06Val{red: true, rs: true})
 	all := []c06Val{
 		c06P(`"d‹"`, "d"+vS),
 		c06Safe(c06P(`"s"`, "s")),
@@ -727,10 +770,12 @@ func c06Atoms(args []c06Val, full bool) []c06Op {
 func c06Programs(quick bool) (progs []c06Val, bound string) {
 	args := c06ProgArgs(quick)
 	atoms := c06Atoms(args, !quick)
+	single := c06Atoms(args, true) // every writer of the SafePrinter at least alone and in one program with all of them
 	var seqs [][]c06Op
-	for _, a := range atoms {
+	for _, a := range single {
 		seqs = append(seqs, []c06Op{a})
 	}
+	seqs = append(seqs, single[:14])
 	for _, a := range atoms {
 		for _, b := range atoms {
 			seqs = append(seqs, []c06Op{a, b})
@@ -772,7 +817,7 @@ func c06Programs(quick bool) (progs []c06Val, bound string) {
 	if !quick {
 		stride = 41
 	}
-	prev := pick(level1, len(atoms)*len(c06Carriers), stride)
+	prev := pick(level1, len(single)*len(c06Carriers), stride)
 	levels := 1
 	for depth := 2; depth <= 3; depth++ {
 		var next []c06Val
@@ -799,7 +844,7 @@ func c06Programs(quick bool) (progs []c06Val, bound string) {
 		prev = pick(next, 0, 3)
 		levels = depth
 	}
-	bound = fmt.Sprintf("programs: 4 carriers (Formatter discovering the SafePrinter, SafeFormatter+Format, SafeFormatter+String, error + registered hook) x all operation sequences of length <= 2 over %d operations", len(atoms))
+	bound = fmt.Sprintf("programs: 4 carriers (Formatter discovering the SafePrinter, SafeFormatter+Format, SafeFormatter+String, error + registered hook) x (all single operations out of %d + all operation sequences of length 2 over %d operations + one program with all 14 writers)", len(single), len(atoms))
 	if !quick {
 		bound += fmt.Sprintf(" and of length 3 over %d operations", len(small))
 	}
@@ -820,6 +865,60 @@ func c06Wrapped(bases []c06Val) []c06Val {
 	return out
 }
 
+// c06PlainData: v is built from basic kinds, strings, slices, arrays, maps and method-less structs only
+// (no pointer, no method, no wrapper): printing it by reflection and printing it as an operand give the same text.
+func c06PlainData(v reflect.Value) bool {
+	if !v.IsValid() {
+		return true
+	}
+	if v.Type().NumMethod() > 0 || v.Type().PkgPath() != "" && v.Kind() != reflect.Struct {
+		return false
+	}
+	switch v.Kind() {
+	case reflect.Ptr, reflect.Func, reflect.Chan, reflect.UnsafePointer:
+		return false
+	case reflect.Interface:
+		return c06PlainData(v.Elem())
+	case reflect.Slice, reflect.Array:
+		for j := 0; j < v.Len(); j++ {
+			if !c06PlainData(v.Index(j)) {
+				return false
+			}
+		}
+	case reflect.Map:
+		for _, k := range v.MapKeys() {
+			if !c06PlainData(k) || !c06PlainData(v.MapIndex(k)) {
+				return false
+			}
+		}
+	case reflect.Struct:
+		for j := 0; j < v.NumField(); j++ {
+			if !c06PlainData(v.Field(j)) {
+				return false
+			}
+		}
+	}
+	return true
+}
+
+// c06Innermost strips the Safe()/Unsafe() wrappers off a value.
+func c06Innermost(v interface{}) interface{} {
+	for {
+		w, ok := v.(interface{ GetValue() interface{} })
+		if !ok {
+			return v
+		}
+		v = w.GetValue()
+	}
+}
+
+// c06FieldDiv: DIVERGENCE (reported). A wrapper held in a struct field (the printer unwraps interface-typed
+// fields before looking at the value) or in a reflect.Value operand is handled by handleSpecialValues, which
+// reads the wrapped value through the wrapper's unexported field: the String/Error/Format methods of the wrapped
+// value (at any depth) are not called and a pointer prints as an address, where fmt goes through the wrapper's
+// Format method: Sprint(Unsafe(c06Box{Safe(c06Stringer{"x"}), "b"})) is "{{x} b}" where fmt prints "{str:x b}".
+const c06FieldDiv = "a wrapper in a struct field or reflect.Value: methods of the wrapped value are not called, pointers print as addresses"
+
 // c06Containers: x as a part of a larger value.
 func c06Containers(e c06Val) []c06Val {
 	isWrapper := strings.HasPrefix(e.name, "Safe(") || strings.HasPrefix(e.name, "Unsafe(")
@@ -830,7 +929,12 @@ func c06Containers(e c06Val) []c06Val {
 		c06With("&c06Box{"+e.name+", \"b\"}", &c06Box{e.v, "b"}, e),
 		c06With("map[string]interface{}{\"k\": "+e.name+", \"a‹\": 2}", map[string]interface{}{"k": e.v, "a" + vS: 2}, e),
 		c06With("[]interface{}{[]interface{}{"+e.name+"}, c06Box{"+e.name+", \"i\"}}", []interface{}{[]interface{}{e.v}, c06Box{e.v, "i"}}, e),
-		c06With("c06Typed{I: "+e.name+"}", c06Typed{S: "ts" + SafeString(vS), R: RedactableString("tr" + vS + "x" + vE), N: 8, W: Safe("tw"), E: errors.New("te"), I: e.v}, e, c06Val{red: true, hasS: true, err: true}),
+		c06With("c06Typed{I: "+e.name+"}", c06Typed{S: "ts" + SafeString(vS), R: RedactableString("tr" + vS + "x" + vE), N: 8, W: Safe("tw"), E: errors.New("te"), I: e.v}, e, c06Val{red: true, rs: true, hasS: true, err: true}),
+	}
+	if isWrapper && !c06PlainData(reflect.ValueOf(c06Innermost(e.v))) {
+		for _, j := range []int{2, 3, 5, 6} {
+			out[j].div = c06FieldDiv
+		}
 	}
 	hid := c06With("c06Hid{"+e.name+", 1}", c06Hid{e.v, 1}, e)
 	if isWrapper {
@@ -843,11 +947,8 @@ func c06Containers(e c06Val) []c06Val {
 		out = append(out, c06With("map[interface{}]int{"+e.name+": 1}", map[interface{}]int{e.v: 1}, e))
 	}
 	rv := c06With("reflect.ValueOf("+e.name+")", reflect.ValueOf(e.v), e)
-	if isWrapper {
-		// DIVERGENCE (reported): handleSpecialValues reads the wrapped value through the unexported field of the
-		// wrapper, so the methods (String, Error, Format) of the wrapped value are not called, where fmt calls
-		// them through the wrapper's Format method.
-		rv.div = "reflect.Value of a wrapper: methods of the wrapped value are not called"
+	if isWrapper && !c06PlainData(reflect.ValueOf(c06Innermost(e.v))) {
+		rv.div = c06FieldDiv
 	}
 	out = append(out, rv)
 	return out
@@ -905,11 +1006,12 @@ func c06BuildUniverse(quick bool) c06Universe {
 type c06Ctx struct {
 	call  func(arg string) string      // Go-like text of the call, given the text of the operand
 	run   func(arg interface{}) string // the call, on the real API
-	ref   func(x interface{}) string   // fmt's characters for the same call shape
+	ref   func(x interface{}) string   // fmt's characters for the same call shape (x: the wrapped value; for inner contexts the wrapper itself, which fmt prints through the wrapper's Format method, i.e. as a top-level operand)
 	pre   string                       // safe text the call puts before the rendering of the operand
 	suf   string                       // ... and after it
 	plain bool                         // plain %v (no flag, width, precision)
 	inner bool                         // the operand is a part of an unwrapped container
+	field bool                         // ... namely a struct field
 }
 
 const (
@@ -920,7 +1022,7 @@ const (
 // c06Formats: directives with one operand. %v family first.
 var c06Formats = []string{
 	"%v", "%+v", "%#v", "%s", "%q", "%d", "%x", "%X", "%c", "%U", "%t", "%e", "%6.2f", "%o", "%b", "%T", "%p",
-	"%5v", "%-8v", "%08v", "%.2v", "%+d", "% d", "%#x", "%#q", "%+q", "%10.3s", "%-+#08.3v", "% x", "%w", "%z", "%!", "%O", "%g", "%#o",
+	"%5v", "%-8v", "%08v", "%.2v", "%+d", "% d", "%#x", "%#q", "%+q", "%10.3s", "%-+#08.3v", "% x", "%w", "%z", "%!", "%O", "%g", "%#o", "%+ x", "% +v",
 }
 
 func c06Contexts(quick bool) []c06Ctx {
@@ -931,36 +1033,56 @@ func c06Contexts(quick bool) []c06Ctx {
 		ref:   func(x interface{}) string { return fmt.Sprint(x) },
 		plain: true,
 	}, c06Ctx{
-		call:  func(a string) string { return "Sprintln(" + a + ")" },
-		run:   func(a interface{}) string { return string(Sprintln(a)) },
-		ref:   func(x interface{}) string { return fmt.Sprintln(x) },
-		suf:   "\n",
+		// the wrapper is not a string operand: Sprint separates it from its neighbours with a space
+		call:  func(a string) string { return "Sprint(SafeInt(1), " + a + ", SafeInt(2))" },
+		run:   func(a interface{}) string { return string(Sprint(SafeInt(1), a, SafeInt(2))) },
+		ref:   func(x interface{}) string { return "1 " + fmt.Sprint(x) + " 2" },
+		pre:   "1 ",
+		suf:   " 2",
 		plain: true,
 	}, c06Ctx{
-		call:  func(a string) string { return "Sprintln(SafeInt(1), " + a + ", SafeInt(2))" },
-		run:   func(a interface{}) string { return string(Sprintln(SafeInt(1), a, SafeInt(2))) },
-		ref:   func(x interface{}) string { return fmt.Sprintln(1, x, 2) },
-		pre:   "1 ",
-		suf:   " 2\n",
+		call: func(a string) string { return "Fprint(&buf, " + a + ")" },
+		run: func(a interface{}) string {
+			var b strings.Builder
+			_, _ = Fprint(&b, a)
+			return b.String()
+		},
+		ref:   func(x interface{}) string { return fmt.Sprint(x) },
 		plain: true,
+	}, c06Ctx{
+		call: func(a string) string { return "Fprintf(&buf, \"@<@%-6v@>@\", " + a + ")" },
+		run: func(a interface{}) string {
+			var b strings.Builder
+			_, _ = Fprintf(&b, c06Pre+"%-6v"+c06Suf, a)
+			return b.String()
+		},
+		ref: func(x interface{}) string { return fmt.Sprintf(c06Pre+"%-6v"+c06Suf, x) },
+		pre: c06Pre, suf: c06Suf,
 	})
-	for _, f := range c06Formats {
+	for j, f := range c06Formats {
 		f := f
-		cs = append(cs, c06Ctx{
+		bare := c06Ctx{
 			call:  func(a string) string { return fmt.Sprintf("Sprintf(%q, %s)", f, a) },
 			run:   func(a interface{}) string { return string(Sprintf(f, a)) },
 			ref:   func(x interface{}) string { return fmt.Sprintf(f, x) },
 			plain: f == "%v",
-		})
+		}
 		g := c06Pre + f + c06Suf
-		cs = append(cs, c06Ctx{
+		sent := c06Ctx{
 			call:  func(a string) string { return fmt.Sprintf("Sprintf(%q, %s)", g, a) },
 			run:   func(a interface{}) string { return string(Sprintf(g, a)) },
 			ref:   func(x interface{}) string { return fmt.Sprintf(g, x) },
 			pre:   c06Pre,
 			suf:   c06Suf,
 			plain: f == "%v",
-		})
+		}
+		// quick tier: the %v family both ways, the other directives alternately bare / between sentinels
+		if !quick || j < 3 || j%2 == 0 {
+			cs = append(cs, sent)
+		}
+		if !quick || j < 3 || j%2 == 1 {
+			cs = append(cs, bare)
+		}
 	}
 	cs = append(cs, c06Ctx{
 		call: func(a string) string { return "Sprintf(\"%*v\", 6, " + a + ")" },
@@ -983,6 +1105,7 @@ func c06Contexts(quick bool) []c06Ctx {
 		plain: true,
 	})
 	// Sprintfn: the callback's printer, nested printers through Print / Printf
+	slotIn, slotOut := c06NewProg(), c06NewProg() // the programs of the contexts below, rewritten at every use
 	for _, f := range []string{"", "%v", "%+v", "%08v", "%q", "%d"} {
 		f := f
 		if f == "" {
@@ -1014,8 +1137,9 @@ func c06Contexts(quick bool) []c06Ctx {
 					return "Sprint(c06SfF{SafeString(\"@<@\"); Print(c06Fm{Print(" + a + ")}); SafeString(\"@>@\")})"
 				},
 				run: func(a interface{}) string {
-					in := c06Fm{&c06Prog{ops: []c06Op{{k: "Print", args: []c06Val{{v: a}}}}}}
-					return string(Sprint(c06SfF{&c06Prog{ops: []c06Op{{k: "SafeString", s: c06Pre}, {k: "Print", args: []c06Val{{v: in}}}, {k: "SafeString", s: c06Suf}}}}))
+					c06ProgTab[slotIn].ops = []c06Op{{k: "Print", args: []c06Val{{v: a}}}}
+					c06ProgTab[slotOut].ops = []c06Op{{k: "SafeString", s: c06Pre}, {k: "Print", args: []c06Val{{v: c06Fm{slotIn}}}}, {k: "SafeString", s: c06Suf}}
+					return string(Sprint(c06SfF{slotOut}))
 				},
 				ref: func(x interface{}) string { return c06Pre + fmt.Sprint(x) + c06Suf },
 				pre: c06Pre, suf: c06Suf, plain: true,
@@ -1047,14 +1171,15 @@ func c06Contexts(quick bool) []c06Ctx {
 				return fmt.Sprintf("Sprintf(\"%%s\", c06Fm{SafeString(\"@<@\"); Printf(%q, %s); SafeString(\"@>@\")})", f, a)
 			},
 			run: func(a interface{}) string {
-				return string(Sprintf("%s", c06Fm{&c06Prog{ops: []c06Op{{k: "SafeString", s: c06Pre}, {k: "Printf", s: f, args: []c06Val{{v: a}}}, {k: "SafeString", s: c06Suf}}}}))
+				c06ProgTab[slotOut].ops = []c06Op{{k: "SafeString", s: c06Pre}, {k: "Printf", s: f, args: []c06Val{{v: a}}}, {k: "SafeString", s: c06Suf}}
+				return string(Sprintf("%s", c06Fm{slotOut}))
 			},
 			ref: func(x interface{}) string { return c06Pre + fmt.Sprintf(f, x) + c06Suf },
 			pre: c06Pre, suf: c06Suf, plain: f == "%v",
 		})
 	}
 	// the wrapper as a part of an unwrapped container: its neighbours are safe (for Unsafe) or unsafe (for Safe)
-	for _, f := range []string{"%v", "%+v", "%d", "%q"} {
+	for _, f := range []string{"%v", "%+v", "%d", "%q", "%+ x"} {
 		f := f
 		cs = append(cs, c06Ctx{
 			call: func(a string) string {
@@ -1063,35 +1188,27 @@ func c06Contexts(quick bool) []c06Ctx {
 			run: func(a interface{}) string {
 				return string(Sprintf(f, []interface{}{SafeString(c06Pre), a, SafeString(c06Suf)}))
 			},
-			ref: func(x interface{}) string { return fmt.Sprintf(f, []interface{}{c06Pre, x, c06Suf}) },
-			pre: map[string]string{"%v": "[@<@ ", "%+v": "[@<@ ", "%d": "[%!d(interfaces.SafeString=@<@) ", "%q": "[\"@<@\" "}[f],
-			suf: map[string]string{"%v": " @>@]", "%+v": " @>@]", "%d": " %!d(interfaces.SafeString=@>@)]", "%q": " \"@>@\"]"}[f],
+			ref: func(x interface{}) string {
+				return fmt.Sprintf(f, []interface{}{SafeString(c06Pre), x, SafeString(c06Suf)})
+			},
+			pre:   map[string]string{"%v": "[@<@ ", "%+v": "[@<@ ", "%d": "[%!d(interfaces.SafeString=@<@) ", "%q": "[\"@<@\" ", "%+ x": "[40 3c 40 "}[f],
+			suf:   map[string]string{"%v": " @>@]", "%+v": " @>@]", "%d": " %!d(interfaces.SafeString=@>@)]", "%q": " \"@>@\"]", "%+ x": " 40 3e 40]"}[f],
 			plain: f == "%v", inner: true,
 		})
 	}
 	cs = append(cs, c06Ctx{
-		call: func(a string) string { return "Sprint(c06Typed{S: \"@<@\", I: " + a + ", N: 7}) /* struct field */" },
+		call: func(a string) string { return "Sprint(c06Field{S: SafeString(\"@<@\"), I: " + a + ", N: SafeInt(7)})" },
 		run: func(a interface{}) string {
-			return string(Sprint(struct {
-				S SafeString
-				I interface{}
-				N SafeInt
-			}{c06Pre, a, 7}))
+			return string(Sprint(c06Field{c06Pre, a, 7}))
 		},
-		ref: func(x interface{}) string {
-			return fmt.Sprint(struct {
-				S string
-				I interface{}
-				N int
-			}{c06Pre, x, 7})
-		},
-		pre: "{@<@ ", suf: " 7}", plain: true, inner: true,
+		ref: func(x interface{}) string { return fmt.Sprint(c06Field{c06Pre, x, 7}) },
+		pre: "{@<@ ", suf: " 7}", plain: true, inner: true, field: true,
 	}, c06Ctx{
 		call: func(a string) string { return "Sprint(map[SafeString]interface{}{\"@k@\": " + a + "}) /* map value */" },
 		run: func(a interface{}) string {
 			return string(Sprint(map[SafeString]interface{}{"@k@": a}))
 		},
-		ref: func(x interface{}) string { return fmt.Sprint(map[string]interface{}{"@k@": x}) },
+		ref: func(x interface{}) string { return fmt.Sprint(map[SafeString]interface{}{"@k@": x}) },
 		pre: "map[@k@:", suf: "]", plain: true, inner: true,
 	})
 	return cs
@@ -1183,9 +1300,6 @@ func (h *c06Harness) one(kind byte, x c06Val, ctx *c06Ctx) {
 			bare, bareOK = b[len(ctx.pre):len(b)-len(ctx.suf)], true
 		}
 	}()
-	if x.prog {
-		h.canary(ctx.call(x.name))
-	}
 	nested := kind == 'U' && x.hasS || kind == 'S' && x.hasU
 	switch kind {
 	case 'U':
@@ -1244,21 +1358,36 @@ func (h *c06Harness) one(kind byte, x c06Val, ctx *c06Ctx) {
 	case x.div != "":
 		h.skipped["characters, KNOWN DIVERGENCE: "+x.div]++
 		return
-	case (kind == 'S' || ctx.inner) && !ctx.plain && (x.hasS || kind == 'S' && ctx.inner):
+	case ctx.field && !c06PlainData(reflect.ValueOf(c06Innermost(x.v))):
+		h.skipped["characters, KNOWN DIVERGENCE: "+c06FieldDiv]++
+		return
+	case x.rs && !ctx.plain || x.rsf:
+		h.skipped["characters of a RedactableString under a directive other than plain %v (by design it ignores the directive)"]++
+		return
+	case (strings.Contains(call, "%p") || strings.Contains(call, "%w")) && (x.hasS || x.hasU):
+		h.skipped["characters of the bad-verb report of %p / %w on a wrapper (fmt shows the wrapper struct)"]++
+		return
+	case x.anypan && c06HasWidth(call):
+		h.skipped["characters after a recovered panic under a width/precision (fmt version skew: go1.23 resets the width, the fork keeps it)"]++
+		return
+	case kind == 'S' && x.mf:
+		h.skipped["characters under Safe(), a method of x applies a directive other than plain %v to a part that is rendered by its own SafeFormat/SafeMessage/error-hook method"]++
+		return
+	case kind == 'S' && x.nofmt:
+		h.skipped["characters under Safe() of a SafeFormatter that has no method fmt knows"]++
+		return
+	case kind == 'S' && (!ctx.plain && (x.hasS || ctx.inner) || x.sf):
 		// DIVERGENCE (reported): outside an Unsafe(), a Safe() wrapper that is reached through a container or
-		// another Safe() is rendered through its SafeMessage() method = Sprintf("%v") of the wrapped value, and the
-		// directive is then applied to that string: Sprintf("%d", Safe([]interface{}{Safe(5)})) is
+		// below another Safe() is rendered through its SafeMessage() method = Sprintf("%v") of the wrapped value,
+		// and the directive is then applied to that string: Sprintf("%d", Safe([]interface{}{Safe(5)})) is
 		// "[%!d(redact.safeWrapper=5)]" where fmt prints "[5]"; %x prints "[35]", %q "[\"5\"]".
 		h.skipped["characters, KNOWN DIVERGENCE: a Safe() wrapper reached below another Safe() or inside a container is rendered via SafeMessage(): only plain %v has fmt's characters"]++
 		return
-	case kind == 'S' && !ctx.plain && (x.meth || h.hook && x.err):
+	case kind == 'S' && !ctx.plain && !ctx.inner && (x.meth || h.hook && x.err):
 		h.skipped["characters under Safe() for directives other than plain %v, x rendered by its own SafeFormat/SafeMessage/error-hook method instead of the method fmt would call"]++
 		return
-	case kind == 'S' && x.pan && (x.meth || x.prog):
-		h.skipped["characters under Safe(), the name of the panicking method (SafeFormat vs Format/String) is part of the output"]++
-		return
-	case ctx.inner && (x.meth || x.prog || x.red || x.pan || h.hook && x.err) && kind == 'S':
-		h.skipped["characters of Safe(x) inside a container, x with methods of its own"]++
+	case kind == 'S' && x.pan && !ctx.inner:
+		h.skipped["characters under Safe(), the name of the panicking method (SafeFormat vs Format/String/Error) is part of the output"]++
 		return
 	}
 	h.eq.cases++
@@ -1269,7 +1398,11 @@ func (h *c06Harness) one(kind byte, x c06Val, ctx *c06Ctx) {
 				refPanic = true
 			}
 		}()
-		ref = ctx.ref(x.v)
+		if ctx.inner {
+			ref = ctx.ref(arg)
+		} else {
+			ref = ctx.ref(x.v)
+		}
 	}()
 	if refPanic {
 		h.skipped["fmt itself panics on x"]++
@@ -1288,6 +1421,27 @@ func (h *c06Harness) one(kind byte, x c06Val, ctx *c06Ctx) {
 	if c06HasMarker(ref) || strings.Contains(ref, "\n") || x.prog || x.hasS || x.hasU || x.meth {
 		h.eq.nontrivial++
 	}
+}
+
+// c06PlainFormat: every directive of the format is exactly %v.
+func c06PlainFormat(f string) bool {
+	f = strings.ReplaceAll(f, "%%", "")
+	return strings.Count(f, "%") == strings.Count(f, "%v")
+}
+
+// c06HasWidth: some directive of the call text has a width or a precision.
+func c06HasWidth(call string) bool {
+	for j := 0; j+1 < len(call); j++ {
+		if call[j] != '%' {
+			continue
+		}
+		for k := j + 1; k < len(call) && strings.IndexByte("+-# 0123456789.*[]", call[k]) >= 0; k++ {
+			if call[k] >= '1' && call[k] <= '9' || call[k] == '*' || call[k] == '.' {
+				return true
+			}
+		}
+	}
+	return false
 }
 
 func c06Bounded(line map[string]interface{}) {
@@ -1365,7 +1519,7 @@ func TestVerifBoundedC06(t *testing.T) {
 		run(false, func(x c06Val) bool { return x.err })
 	}
 	complete := !h.stop()
-	bound := fmt.Sprintf("%d values x %d contexts x {Unsafe, Safe}, error hook registered; values containing errors also without hook. Values: %s. Contexts: Sprint, Sprintln, Sprintf with %d directives (bare and between safe sentinels), %%*v, %%.*v, %%[2]v, Sprintfn+Print/Printf, StringBuilder.Print/Printf, nested printers two deep, wrapper inside an unwrapped slice/struct/map",
+	bound := fmt.Sprintf("%d values x %d contexts x {Unsafe, Safe}, error hook registered; values containing errors also without hook. Values: %s. Contexts: Sprint, Fprint, Fprintf, Sprintf with %d directives (bare and between safe sentinels; quick tier: alternately), %%*v, %%.*v, %%[2]v, Sprintfn+Print/Printf, StringBuilder.Print/Printf, nested printers two deep, wrapper inside an unwrapped slice/struct/map",
 		len(uni.vals), len(ctxs), uni.bound, len(c06Formats))
 	if quick {
 		bound += "; quick tier: programs go through every 5th context (+ the first three)"
